@@ -2,4 +2,12 @@ package main
 
 func extraDomain(name string, maxOrd, maxRep, nph int) *Domain { return nil }
 
-func extraCommand(name string, args []string) bool { return false }
+func extraCommand(name string, args []string) bool {
+	switch name {
+	case "ordinals":
+		cmdOrdinals(args)
+	default:
+		return false
+	}
+	return true
+}
